@@ -5,7 +5,7 @@ import (
 	v "github.com/pokt-network/pocket-core/verifrt"
 )
 
-//verif:config VerifC29 idealhash=yes
+//verif:config VerifC29 idealhash=yes unwind=200
 
 // VerifC29: every leaf of every generated tree verifies against the generated root.
 func VerifC29() {
